@@ -17,6 +17,16 @@ func init() {
 			Kind: slip.MacroSymbol,
 			Name: "prog2",
 			Args: []*slip.DocArg{
+				{
+					Name: "first-form",
+					Type: "object",
+					Text: "The first form to evaluate.",
+				},
+				{
+					Name: "second-form",
+					Type: "object",
+					Text: "The form whose value is returned.",
+				},
 				{Name: "&rest"},
 				{
 					Name: "forms",
